@@ -47,6 +47,12 @@ CLAIMS = {
              "over in every order) reports a conflict iff the whole-program reference over the union of all constraints does, and the last package's verdicts on visible sites equal whole-program reachability.",
         note="Engine level only: real drivers, serialisation bytes, contract/affiliation/nolint facts and position re-keying are outside (see evidence.coverage.outside_bounds).",
     ),
+    "C10": dict(
+        text="The solver shows for ALL flag values that an explicitly set annotation value is never changed by type defaults or later make* calls, that defaults never mark a site as annotated, "
+             "that Range replays exactly the explicit flags with their values, and (engine, bounded) that a site annotated first keeps exactly the annotated verdict with the annotation as its "
+             "explanation under every following constraint sequence, contradictions becoming conflicts.",
+        note="Partial: the doc-comment grammar (regexp) and the lookup of names in declarations are outside. Type-default predicates are symbolic Booleans under symx, real types natively.",
+    ),
 }
 
 # reasons for every property not (yet) claimed
@@ -55,5 +61,5 @@ NOT_APPLICABLE = {
     "C16": "The quantifier is goroutine interleavings over the whole analysis heap; symx has no thread model and no installed solver-based engine explores Go schedules.",
     "C18": "Everything the property depends on is environment (process cwd captured at init, filepath.Rel, driver cwd); after stubbing those by contract the residual repo code is a one-line wrapper.",
 }
-for _p in ["C02", "C04", "C07", "C08", "C09", "C10", "C14", "C15", "C17", "C20"]:
+for _p in ["C02", "C04", "C07", "C08", "C09", "C14", "C15", "C17", "C20"]:
     NOT_APPLICABLE.setdefault(_p, "kernel check not yet registered (in progress; see DESIGN.md section 4)")
